@@ -54,6 +54,17 @@ def nondegenerate_faces(V, F):
     return True
 
 
+def projection_embedded(V, F):
+    """all faces have the same orientation in the xy-projection (no fold after jitter)"""
+    sg = set()
+    for a, b, c in F:
+        d = (V[b][0] - V[a][0]) * (V[c][1] - V[a][1]) - (V[b][1] - V[a][1]) * (V[c][0] - V[a][0])
+        sg.add(d > 0)
+        if d == 0:
+            return False
+    return len(sg) == 1
+
+
 def det3(a, b, c):
     return (a[0] * b[1] * c[2] + a[1] * b[2] * c[0] + a[2] * b[0] * c[1]
             - a[0] * b[2] * c[1] - a[1] * b[0] * c[2] - a[2] * b[1] * c[0])
@@ -219,7 +230,7 @@ def gen_surface(rng, tier):
         V, F = scramble_surface(rng, V, F, isolated=iso)
         if iso:
             shape += "+isolated-vertex"
-        if nondegenerate_faces(V, F):
+        if nondegenerate_faces(V, F) and (not shape.startswith(("planar-grid", "height-field")) or projection_embedded(V, F)):
             planar = all(p[2] == V[0][2] for p in V) and all(p[2] == 0 for p in V)
             return {"kind": "surface", "V": V, "F": [list(f) for f in F], "shape": shape, "planar": planar}
     raise RuntimeError("generator failed to produce a non-degenerate surface")
@@ -519,9 +530,10 @@ def oracle(case, obs):
     def sym_rowsum(name, A):
         if A is None:
             return
-        if not close(A, A.T):
+        scale = 1 + (float(np.max(np.abs(A[np.isfinite(A)]))) if A.size and np.any(np.isfinite(A)) else 0.0)
+        if not close(A / scale, A.T / scale):
             bad.append((name + "/symmetric", "%s is not symmetric" % name))
-        if not close(A.sum(axis=1), np.zeros(A.shape[0])):
+        if not close(A.sum(axis=1) / scale, np.zeros(A.shape[0])):
             bad.append((name + "/rowsum", "%s has a non-zero row sum %s" % (name, A.sum(axis=1).tolist())))
 
     # ---- edges of the mesh are exactly the element edges, each once
